@@ -13,12 +13,12 @@ import (
 
 func init() {
 	register(&Property{
-		ID:        "C03",
-		Roots:     []string{"overlord/state", "daemon"},
-		Technique: "constant/table agreement (statusOrder permutation, Ready() set by constant-folding its switch), who-may-write of the ready markers, guarded-sink / loop-latch / ordering reachability on Change.detectChangeReady, Change.Err, daemon.abortChange and the TaskRunner lock order",
+		ID:          "C03",
+		Roots:       []string{"overlord/state", "daemon"},
+		Technique:   "constant/table agreement (statusOrder permutation, Ready() set by constant-folding its switch), who-may-write of the ready markers, guarded-sink / loop-latch / ordering reachability on Change.detectChangeReady, Change.Err, daemon.abortChange and the TaskRunner lock order",
 		Explanation: "Structural necessary conditions for 'every change settles; status consistent and monotone': (R1) statusOrder is a duplicate-free permutation of every Status constant except Default and Status.Ready() accepts exactly {Done, Undone, Hold, Error}; (R2) Change.readyTime and the ready channel are written only by markReady (first time only) and by unmarshalling, and detectChangeReady reaches markReady only after its loop advanced solely across the excluded task or tasks whose status is Ready(); (R3) daemon.abortChange aborts only a change that is not ready, and the only other caller of Change.Abort is State.Prune on a change with zero ready time; (R4) Change.Err reports nil only when the status is not Error, has no early exit from its task loop, skips a task only when its status is not Error, and examines every line of a failed task's log (no first-match exit); (R5) wherever TaskRunner code takes both locks, r.mu is taken before the state lock, and the functions documented to run with the state lock held take neither; (R6) no reviewed transition leaves a ready status except Done->Undo (abort of finished work); (R7) in the wait aggregation (Change.isTaskWaiting) the dependency statuses that leave the verdict untouched are exactly the ready statuses, Wait forces it true, and Do/Undo recurse over WaitTasks/HaltTasks.",
-		NotDecided: "liveness proper (that handlers return); that the aggregate equals the documented function for every multiset of task statuses (isChangeWaiting / priority scan are value-level).",
-		Run:        runC03,
+		NotDecided:  "liveness proper (that handlers return); that the aggregate equals the documented function for every multiset of task statuses (isChangeWaiting / priority scan are value-level).",
+		Run:         runC03,
 	})
 }
 
@@ -277,8 +277,8 @@ func runC03(c *Ctx) {
 		// helper given the task) runs to exhaustion
 		exhaust := func(fn *ssa.Function, x *RangeLoop, where string) {
 			q := ReachQ{Fn: fn, From: &Loc{x.Body, -1},
-				CutEdge: func(b *ssa.BasicBlock, s int) bool { return b == x.Header && b.Succs[s] == x.Done },
-				Sink:    func(in ssa.Instruction) bool { _, ok := in.(*ssa.Return); return ok },
+				CutEdge:  func(b *ssa.BasicBlock, s int) bool { return b == x.Header && b.Succs[s] == x.Done },
+				Sink:     func(in ssa.Instruction) bool { _, ok := in.(*ssa.Return); return ok },
 				SinkEdge: func(b *ssa.BasicBlock, s int) bool { return b != x.Header && b.Succs[s] == x.Done }}
 			r := q.Run()
 			c.touch(fn)
@@ -311,7 +311,9 @@ func runC03(c *Ctx) {
 		if inner != nil {
 			notErr := Cmp("task.Status()!=Error", VRes(0, ToFn(tStatus)), token.NEQ, VConstObj(cErr))
 			q := ReachQ{Fn: errFn, From: &Loc{rl.Body, -1},
-				CutEdge:  func(b *ssa.BasicBlock, s int) bool { return AtomEdges(notErr)(b, s) || b.Succs[s] == inner.Header || b.Succs[s] == rl.Done },
+				CutEdge: func(b *ssa.BasicBlock, s int) bool {
+					return AtomEdges(notErr)(b, s) || b.Succs[s] == inner.Header || b.Succs[s] == rl.Done
+				},
 				SinkEdge: func(b *ssa.BasicBlock, s int) bool { return b.Succs[s] == rl.Header }}
 			r := q.Run()
 			c.Check(!r.Found, "overlord/state.(*Change).Err#skip-only-non-error", rl.Body.Instrs[0].Pos(), "a task's log is skipped only when its status is not Error", "a failed task can be skipped without reading its log: "+P.PathString(r.Path))
